@@ -175,3 +175,115 @@ def reused_object_history(ctx, kind, n, seed, steps, which, be='np'):
                     z[2 * q], z[2 * q + 1] = xz
                     obj.measure(M.PL([[z, 0]]))
     return None
+
+
+def operator_history(ctx, kind, n, seed, steps, be='np'):
+    """ONE long-lived operator object -- kind 'pauli' | 'mono' | 'list' | 'poly' -- used in products, sums, casts and printing, updated IN PLACE in between (rotations, masked
+    rotations, map transformations, direct phase / coefficient writes), and used again: every use equals the same use of a FRESHLY built equal object.  (A cast or a product
+    remembered on the object must follow its in-place updates.)  Returns None or an oracle failure dict."""
+    _MODEL[0] = ctx.model
+    rng = random.Random(seed)
+    M = impl(be)
+    lib = __import__('pyclifford' if be == 'np' else 'torchclifford')
+    PA = lib.paulialg
+
+    def mkpoly(terms):
+        gs = M.GS([t[0] for t in terms], 2 * n)
+        if be == 'np':
+            return PA.PauliPolynomial(gs, np.array([t[1] for t in terms], dtype=np.int_)).set_cs(np.array([complex(*t[2]) for t in terms]))
+        import torch
+        return PA.PauliPolynomial(gs, M.PS([t[1] for t in terms])).set_cs(torch.tensor([complex(*t[2]) for t in terms], dtype=torch.complex128))
+
+    def rterms(L):
+        return [[gen.rstr(rng, n), rng.randint(0, 3), [rng.choice([1, -1, 2, 0.5]), rng.choice([0, 0, 1, -0.5])]] for _ in range(L)]
+
+    def values(o):
+        if kind == 'pauli':
+            return M.oP(o)
+        if kind == 'mono':
+            c = complex(o.c)
+            return [M.oP(o), [c.real, c.imag]]
+        if kind == 'list':
+            return M.oPL(o)
+        return [[[int(v) for v in g], int(round(float(p))) % 4, [complex(c).real, complex(c).imag]] for g, p, c in zip(o.gs, o.ps, o.cs)]
+
+    def fresh(o):
+        v = values(o)
+        if kind == 'pauli':
+            return PA.Pauli(M.G(v[0]), int(v[1]))
+        if kind == 'mono':
+            return PA.PauliMonomial(M.G(v[0][0]), int(v[0][1])).set_c(complex(*v[1]))
+        if kind == 'list':
+            return PA.PauliList(M.GS([a[0] for a in v], 2 * n), np.array([a[1] for a in v], dtype=np.int_) if be == 'np' else M.PS([a[1] for a in v]))
+        return mkpoly(v)
+    if kind == 'pauli':
+        obj = M.P(gen.rpauli(rng, n))
+    elif kind == 'mono':
+        obj = PA.PauliMonomial(M.G(gen.rstr(rng, n)), rng.randint(0, 3)).set_c(complex(rng.choice([1, -1, 2, 1j, 0.5 - 0.5j])))
+    elif kind == 'list':
+        obj = M.PL(gen.rplist(rng, n, rng.randint(1, 4)))
+    else:
+        obj = mkpoly(rterms(rng.randint(1, 4)))
+    H = mkpoly(rterms(3))
+    Q = M.P(gen.rpauli(rng, n))
+
+    def cpoly(r):
+        r = r.as_polynomial() if hasattr(r, 'as_polynomial') and not hasattr(r, 'cs') else r
+        return _canon_poly(r)
+    queries = {
+        'as_polynomial': lambda o: cpoly(o.as_polynomial()),
+        'matmul_poly': lambda o: cpoly(o @ H) if kind != 'list' else None,
+        'rmatmul_poly': lambda o: cpoly(H @ o) if kind != 'list' else None,
+        'matmul_pauli': lambda o: cpoly(o @ Q) if kind != 'list' else None,
+        'add_poly': lambda o: cpoly(o + H) if kind != 'list' else None,
+        'radd_poly': lambda o: cpoly(H + o) if kind != 'list' else None,
+        'neg': lambda o: cpoly(-o) if kind != 'list' else M.oPL(-o),
+        'rmul': lambda o: cpoly(1j * o) if kind != 'list' else M.oPL(1j * o),
+        'repr': lambda o: repr(o),
+        'copy': lambda o: values(o.copy()),
+        'as_list': lambda o: M.oPL(o.as_list()) if kind == 'pauli' else None,
+    }
+    if be == 'torch':
+        for k_ in ('rmatmul_poly', 'radd_poly', 'matmul_pauli', 'add_poly') + (('matmul_poly',) if kind == 'pauli' else ()):
+            queries.pop(k_, None)            # the port has no promotion of single operators inside sums / products of polynomials
+    names = sorted(queries)
+    hist = []
+    for _ in range(steps):
+        if rng.random() < 0.55:
+            name = rng.choice(names)
+            hist.append('?' + name)
+            try:
+                want = queries[name](fresh(obj))
+            except (NotImplementedError, TypeError, AttributeError, RuntimeError):
+                continue                          # not offered for this kind by this backend
+            try:
+                got = queries[name](obj)
+            except Exception as e:
+                return {'kind': 'oracle', 'where': '%s:%s.%s raised %s on a reused object (it works on a fresh equal one)' % (be, kind, name, type(e).__name__), 'observed': str(e)[:120], 'expected': want, 'history': hist, 'tags': ['op_history', kind, name]}
+            if got != want:
+                return {'kind': 'oracle', 'where': '%s:%s.%s on a reused object differs from the same use of a fresh equal object' % (be, kind, name), 'observed': got if len(str(got)) < 500 else str(got)[:500],
+                        'expected': want if len(str(want)) < 500 else str(want)[:500], 'history': hist, 'object': values(obj), 'tags': ['op_history', kind, name]}
+        else:
+            op = rng.choice(['rotate', 'rotate', 'mrotate', 'transform', 'setp', 'setc'])
+            hist.append(op)
+            if op == 'rotate':
+                obj.rotate_by(M.P(gen.rpauli(rng, n, herm=True, nonzero=True)))
+            elif op == 'mrotate' and n >= 2:
+                k = rng.randint(1, n - 1)
+                mk = gen.rmask(rng, n, k)[0]
+                mask = np.array(mk, dtype=bool) if be == 'np' else __import__('torch').tensor([bool(b) for b in mk])
+                obj.rotate_by(M.P(gen.rpauli(rng, k, herm=True, nonzero=True)), mask=mask)
+            elif op == 'transform':
+                obj.transform_by(M.CM(gen_map(rng, n)))
+            elif op == 'setp':
+                if kind in ('pauli', 'mono'):
+                    obj.p = (int(obj.p) + rng.choice([1, 2, 3])) % 4
+                else:
+                    j = rng.randrange(len(obj.ps))
+                    obj.ps[j] = (int(round(float(obj.ps[j]))) + 2) % 4
+            elif op == 'setc' and kind == 'poly':
+                j = rng.randrange(len(obj.cs))
+                obj.cs[j] = obj.cs[j] * (-1)
+            elif op == 'setc' and kind == 'mono':
+                obj.c = obj.c * 1j
+    return None
